@@ -104,6 +104,10 @@ Scenarios ==
   { Scenario("fwd", p, "normal", TRUE, ph, h, "absent", <<"curl/8">>, FALSE, "GET", "/a", ls) :
       p \in Protos, ph \in BOOLEAN, h \in {"vf.test", "other.example:8443", "default.example:443", "[2001:db8::1]:443"}, ls \in SubSeqs(FwdLines, MaxLines) }
   \cup
+  \* C09: ... on connections whose ClientHello the fingerprint parsers cannot use (the connection is TLS all the same)
+  { Scenario("fwd", p, k, TRUE, FALSE, "vf.test", "absent", <<"curl/8">>, FALSE, "GET", "/a", ls) :
+      p \in Protos, k \in ConnKinds \ {"normal"}, ls \in SubSeqs(FwdLines, 1) }
+  \cup
   \* C09: an HTTP/2 client may write ":scheme: http" on its TLS connection; the connection is TLS all the same
   { [Scenario("fwd", "h2", "normal", TRUE, ph, "vf.test", "absent", <<"curl/8">>, FALSE, "GET", "/a", ls) EXCEPT !.scheme = "http"] :
       ph \in BOOLEAN, ls \in SubSeqs(FwdLines, 1) }
